@@ -99,6 +99,7 @@ type Lemma struct {
 	Text string
 	Props []string
 	Src  string
+	Induct string // non-empty: proved by induction on this (integer, universally quantified) variable and then used as an axiom
 }
 
 var clauseKeywords = map[string]bool{
@@ -220,13 +221,23 @@ func (p *Program) loadContracts(path string) error {
 			_ = label
 			i = strings.Index(rest, ":")
 			name := strings.TrimSpace(rest[:i])
+			induct := ""
+			if j := strings.Index(name, " by induction on "); j >= 0 {
+				induct = strings.TrimSpace(name[j+len(" by induction on "):])
+				name = strings.TrimSpace(name[:j])
+			}
 			e, err := parseExpr(rest[i+1:])
 			if err != nil {
 				return fail(err)
 			}
-			l := &Lemma{Name: name, Pkg: pkg, E: e, Text: strings.TrimSpace(rest[i+1:]), Props: props, Src: src}
+			l := &Lemma{Name: name, Pkg: pkg, E: e, Text: strings.TrimSpace(rest[i+1:]), Props: props, Src: src, Induct: induct}
 			if word == "lemma" {
 				p.lemmas = append(p.lemmas, l)
+				if induct != "" {
+					// a lemma proved by induction is available to every function as a hypothesis; its proof
+					// obligations (base, step, negative range) belong to the checks of the tagged properties
+					p.axioms = append(p.axioms, l)
+				}
 			} else {
 				p.axioms = append(p.axioms, l)
 			}
